@@ -55,6 +55,10 @@ class forward_stmt(Contract):
         # only when a statement enclosing the path was itself rewritten
         return {'TransformReferenceError': anc_rewritten(edits, path.parent)}
 
+    def decreases(self, path, edits, leaf):
+        # termination of the mutual recursion: (block of the path, rank); _forward_block has rank 0
+        return (path.parent, 1)
+
 
 class forward_block(Contract):
     target = 'fpy2.transform.cursor:_forward_block'
@@ -72,3 +76,6 @@ class forward_block(Contract):
     def raises(self, block, edits, leaf):
         # an ancestor that was rewritten is a reference error, never a position
         return {'TransformReferenceError': anc_rewritten(edits, block)}
+
+    def decreases(self, block, edits, leaf):
+        return (block, 0)
